@@ -17,6 +17,15 @@ CHECKS = {
  "C03": ("TLC model checking of IncExplainer.tla in SAGE mode + behaviour replay + TLC trace validation (argument and value clauses) in GF(p)",
          "Chain structure, mean-then-loss, contribution, tracker commits and offsets are invariants / step functions of the specification; TLC validates every recorded call (subsets handed to the imputer, arguments of each loss call, all five trackers) and TLC behaviours are replayed into IncrementalSage.",
          "as C02; label sets grow in both model tables", "§4 C03"),
+ "C04": ("TLC constant-level evaluation (Expectation.tla: expected contribution over all orders x row draws = Shapley / PFI value, exact rationals) + exact expectation of the real code by enumerating every outcome of its random draws + draw kind/range conformance along TLC behaviours + calibrated frequency statistics",
+         "The unbiasedness theorem is an ASSUME of the specification evaluated exactly by TLC; the real explainers' exact expected contribution for the same instance is obtained by depth-first enumeration of all their draws (scripted RNG tape) and must equal the value TLC printed, fraction for fraction; TLC behaviours replayed into the code check that it asks for draws of the specified kind and range.",
+         "global generators trusted uniform; instances d<=3, rows<=3, n_inner<=2; frequencies at 1e-10 per cell", "§4 C04"),
+ "C05": ("TLC model checking of IntervalSage.tla (schedule action properties, window, efficiency over all flag interleavings) and MC_BatchSage.tla (efficiency for every order and row draw, both modes) + behaviour replay into BatchSage + TLC trace validation (Trace_BatchSage.tla)",
+         "Schedule, window and efficiency are TLC invariants / action properties over all interleavings of forced and unforced calls; TLC behaviours are replayed into BatchSage and every recorded call of BatchSage (four entry points) and IntervalSage is validated by TLC (exactly for dyadic sizes, with float tolerance otherwise).",
+         "BatchSage accumulates in floats; original mode assumes the explained names cover the model's features", "§4 C05"),
+ "C06": ("TLC exhaustive model checking of MC_Imputers.tla (all subsets, storages, draws) + every behaviour replayed into MarginalImputer / DefaultImputer with scripted row draws + imputer clauses on explainer traces validated by TLC",
+         "AgreesOutside, InsideFromBackground, JointNeverMixes, EmptySubsetIsIdentity are TLC invariants; each enumerated case is replayed into the real imputers for six subset container types and four storage kinds (model inputs, predictions, non-mutation), and imputer calls inside recorded explainer runs are checked by TLC.",
+         "values encode their origin (instance / row / default); TreeImputer is covered by C19", "§4 C06"),
  "C07": ("TLC exhaustive model checking of Storages.tla (5 kinds, every reservoir outcome) + behaviour replay into the deterministic storages and the p=1 reservoir + TLC trace validation with the reservoir outcome inferred",
          "Sub-multiset, count, alignment and the per-kind content laws are TLC invariants over all update sequences and all accept/slot outcomes; every recorded update of the five real classes must be a specification successor of the logged content (TLC infers the random outcome).",
          "x and y carry different encodings of the arrival id; reservoir outcomes that need an assumption on how a uniform draw maps to acceptance are only validated in direction B", "§4 C07"),
